@@ -176,54 +176,85 @@ class Fixture:
         return o
 
 
-def replay(sub, chunk):
+def execute(sub, fx, steps, meta0):
+    """Run the steps on the fixture, projecting after each; steps: dicts a, r, m, P, T, tip (before), spec (or None)."""
+    rows = sub.cov.setdefault("_collect", [])
+    calls = []
+    for st in steps:
+        a, r, m, P = st["a"], st["r"], st["m"], st["P"]
+        calls.append([a, r, m])
+        outcome = "ok"
+        try:
+            if a == "branch":
+                fx.branch_stacked_at(r)
+            elif a == "commit":
+                fx.commit(r, st["tip"], m, st["T"][st["tip"] - 1] or {})
+            else:
+                fx.copy(a, r)
+        except Exception as e:
+            outcome = "error:%s" % type(e).__name__
+            detail = str(e)[:200]
+        if outcome == "ok":
+            o = fx.observe(len(P))
+        else:
+            o = {"outcome": outcome, "detail": detail}
+        if a == "commit" and outcome == "ok":
+            got = fc.read_graph(fx.stacked(local=True).repository, len(P))[-1]
+            if got != P[-1]:
+                sub.drift("commit recorded parents %s, the behaviour says %s" % (got, P[-1]), {"calls": calls})
+        spec = st["spec"] or {"revs": o.get("lrevs", []), "invs": o.get("linvs", []), "texts": o.get("ltexts", []),
+                              "sigs": o.get("lsigs", []), "tip": o.get("tip", 0)}
+        rows.append({"c": {"P": P}, "impl": o, "spec": spec, "meta": dict(meta0, calls=list(calls), trees=st["T"])})
+        sub.count(1)
+        if outcome != "ok":
+            break
+    return calls
+
+
+def replay_jobs(sub, chunk):
     from breezy import ui
     ui.ui_factory.suppressed_warnings.add("cross_format_fetch")
-    rows = sub.cov.setdefault("_collect", [])
     for bi, fmt, remote, create, beh in chunk:
         split = beh[1][1]
         fx = Fixture(split, fmt, remote, create)
-        calls = []
         try:
-            prev = split
+            steps, prev = [], split
             for act, st in beh[2:]:
-                s = st["step"]
-                a, r, m = s["a"], s["r"], s["m"]
-                calls.append([a, r, m])
-                P = lists(st["h"]["P"])
-                outcome = "ok"
-                try:
-                    if a == "branch":
-                        fx.branch_stacked_at(r)
-                    elif a == "commit":
-                        fx.commit(r, prev["tip"], m, lists(prev["h"]["T"])[prev["tip"] - 1] or {})
-                    else:
-                        fx.copy(a, r)
-                except Exception as e:
-                    outcome = "error:%s" % type(e).__name__
-                    detail = str(e)[:200]
-                if outcome == "ok":
-                    o = fx.observe(len(P))
-                else:
-                    o = {"outcome": outcome, "detail": detail}
-                if a == "commit" and outcome == "ok":
-                    got = fc.read_graph(fx.stacked(local=True).repository, len(P))[-1]
-                    if got != P[-1]:
-                        sub.drift("commit recorded parents %s, the behaviour says %s" % (got, P[-1]), {"calls": calls})
                 loc = lists(st["loc"])
-                rows.append({"c": {"P": P}, "impl": o,
-                             "spec": {"revs": loc["revs"], "invs": loc["invs"], "texts": loc["texts"], "sigs": loc["sigs"],
-                                      "tip": st["tip"]},
-                             "meta": {"behaviour": bi, "format": fmt, "remote": remote, "create": create, "n0": split["n0"],
-                                      "base": sorted(split["base"]["revs"]), "calls": list(calls),
-                                      "trees": lists(st["h"]["T"])}})
-                sub.count(1)
+                steps.append({"a": st["step"]["a"], "r": st["step"]["r"], "m": st["step"]["m"], "P": lists(st["h"]["P"]),
+                              "T": lists(st["h"]["T"]), "tip": prev["tip"],
+                              "spec": {"revs": loc["revs"], "invs": loc["invs"], "texts": loc["texts"], "sigs": loc["sigs"],
+                                       "tip": st["tip"]}})
                 prev = st
-                if outcome != "ok":
-                    break
-            sub.nontrivial((fmt, remote, create, str(lists(split["h"]["P"])), str(sorted(split["base"]["revs"])), str(calls)))
+            base = sorted(split["base"]["revs"])
+            calls = execute(sub, fx, steps, {"behaviour": bi, "format": fmt, "remote": remote, "create": create,
+                                             "n0": split["n0"], "base": base})
+            sub.nontrivial((fmt, remote, create, str(lists(split["h"]["P"])), str(base), str(calls)))
         finally:
             fx.close()
+
+
+def replay(ctx, rep):
+    """./check C08 --replay FILE: run the recorded steps again on the current tree and judge every step."""
+    env.init()
+    row = rep["replay"]
+    m, P, T = row["meta"], row["c"]["P"], row["meta"]["trees"]
+    n0 = m["n0"]
+    fx = Fixture({"n0": n0, "h": {"P": P, "T": T}, "base": {"revs": m["base"]}}, m["format"], m["remote"], m["create"])
+    try:
+        steps, tip, n = [], 0, n0
+        for a, r, mm in m["calls"]:
+            if a == "commit":
+                n += 1
+            steps.append({"a": a, "r": r, "m": mm, "P": P[:n], "T": T[:n], "tip": tip, "spec": None})
+            tip = tip if a == "fetch" else r
+        execute(ctx, fx, steps, {k: m[k] for k in ("behaviour", "format", "remote", "create", "n0", "base")})
+    finally:
+        fx.close()
+    rows = ctx.cov.pop("_collect")
+    for r in rows:
+        print("after %s:" % r["meta"]["calls"][-1], {k: r["impl"].get(k) for k in ("outcome", "lrevs", "linvs", "ltexts", "read", "diff", "check", "tipread")})
+    judge(ctx, rows, selftest=False)
 
 
 def run(ctx):
@@ -239,7 +270,7 @@ def run(ctx):
     for w in WITNESSES:      # anti-vacuity: states TLC must reach
         tlc.check(ctx, "StackingMC", cfg_text=cfg(3, 0, 3, 2, 1, inv=(w,)), expect_violation=w, label="witness " + w, workers=4)
     # ---- E2: simulated behaviours replayed on real stacked branches
-    maxrev, num = (4, 80) if ctx.quick else (5, 2000)
+    maxrev, num = (4, 80) if ctx.quick else (5, 1200)
     behs, _ = tlc.simulate(ctx, "StackingMC", cfg_text=cfg(maxrev, 1, 0, 3, 2), num=num, depth=6, seed=ctx.seed,
                            label="simulate %d behaviours" % num, timeout=3000)
     behs = [[(a, to_py(s)) for a, s in b] for b in behs]
@@ -252,7 +283,7 @@ def run(ctx):
         # creation by set_stacked_on_url + pull moves a branch tip, which needs a revno (see MainlineOk in the spec)
         ghostly = fc.mainline_has_ghost(lists(b[1][1]["h"]["P"]), b[2][1]["step"]["r"])
         jobs.append((bi, fmt, bi % 2 == 1, "sprout" if bi % 4 < 2 or ghostly else "set-url", b))
-    core.fork_map(ctx, replay, jobs)
+    core.fork_map(ctx, replay_jobs, jobs)
     rows = ctx.collected
     if not rows:
         ctx.machinery("no step was recorded")
@@ -261,6 +292,11 @@ def run(ctx):
              "commit / fetch / push / pull; alternately local and bzr://, created by sprout(stacked=True) or "
              "set_stacked_on_url; one row per step; distinct = (format, transport, creation, graph, split, calls)" % maxrev)
     ctx.cov["behaviours"] = len(behs)
+    judge(ctx, rows)
+
+
+def judge(ctx, rows, selftest=True):
+    """E3: TLC judges every recorded step with the laws of Stacking.tla."""
     slim = [{"c": r["c"], "impl": {k: v for k, v in r["impl"].items() if k not in ("detail", "checkp")}, "spec": r["spec"]} for r in rows]
     by_id = {id(s): r for s, r in zip(slim, rows)}
     long = [r for r in rows if len(r["meta"]["calls"]) >= 4] or rows
@@ -270,7 +306,7 @@ def run(ctx):
         have = set(r["impl"].get("checkp", ()))
         new_problems[id(r)] = sorted(have - before.get(r["meta"]["behaviour"], set()))
         before[r["meta"]["behaviour"]] = have
-    probes = selftest_rows(slim)
+    probes = selftest_rows(slim) if selftest else []
     expected = {id(p): law for p, law in probes}
     caught = set()
     for srow, failed, drift in table.judge(ctx, "StackingTrace", slim + [p for p, _ in probes], chunk=4000, workers=4, timeout=3000):
